@@ -281,8 +281,21 @@ func (e *Enc) evalIdent(name string, ctx *SpecCtx) (SV, error) {
 			}
 		}
 	}
-	if name == "now" {
-		return SV{T: e.get(ctx.cur, e.clockComp()), Sort: "Int"}, nil
+	if name == "$visited" && ctx.fr != nil {
+		// the visited-set of the innermost active map range of this frame
+		best := ""
+		for _, cn := range e.compOrder {
+			if strings.HasPrefix(cn, fmt.Sprintf("visited_f%d_", ctx.fr.id)) {
+				if _, ok := ctx.cur.v[cn]; ok {
+					best = cn
+				}
+			}
+		}
+		if best == "" {
+			return SV{}, fmt.Errorf("$visited: no active map range")
+		}
+		c := e.comps[best]
+		return SV{T: e.get(ctx.cur, c), Sort: c.Sort}, nil
 	}
 	if ctx.locals && ctx.fr != nil {
 		if sv, ok := e.lookupLocal(ctx.fr, name, ctx.cur); ok {
@@ -301,6 +314,9 @@ func (e *Enc) evalIdent(name string, ctx *SpecCtx) (SV, error) {
 		if sv, ok := e.lookupLocal(ctx.fr, name, ctx.cur); ok {
 			return sv, nil
 		}
+	}
+	if name == "now" {
+		return SV{T: e.get(ctx.cur, e.clockComp()), Sort: "Int"}, nil
 	}
 	if p := e.importedPkg(ctx.pkg, name); p != nil {
 		return SV{Pkg: p}, nil
@@ -846,8 +862,65 @@ func (e *Enc) evalCall(n *SCall, ctx *SpecCtx) (SV, error) {
 		} else {
 			name = n.Args[0].String()
 		}
-		c := e.callsComp(e.resolveCalleeName(name))
+		c := e.callGhost("calls_", name)
+		if c == nil {
+			c = e.callsComp(e.resolveCalleeName(name))
+		}
 		return SV{T: e.get(ctx.cur, c), Sort: "Int"}, nil
+	case "lastret", "lastarg":
+		// lastret(f[, i]) / lastarg(f, i): value returned by / passed to the most recent call of f
+		name := e.resolveCalleeName(n.Args[0].String())
+		idx := 0
+		if len(n.Args) > 1 {
+			if lit, ok := n.Args[1].(*SLit); ok {
+				fmt.Sscanf(lit.Val, "%d", &idx)
+			}
+		}
+		cn := fmt.Sprintf("%s%d_%s", n.Fn, idx, sanitize(name))
+		c := e.callGhost(fmt.Sprintf("%s%d_", n.Fn, idx), n.Args[0].String())
+		if c == nil {
+			return SV{}, fmt.Errorf("%s(%s): no such call in this function (component %s unknown)", n.Fn, name, cn)
+		}
+		var typ types.Type
+		if fn := e.w.Funcs[name]; fn != nil {
+			if n.Fn == "lastret" && idx < fn.Signature.Results().Len() {
+				typ = fn.Signature.Results().At(idx).Type()
+			} else if n.Fn == "lastarg" && idx < len(fn.Params) {
+				typ = fn.Params[idx].Type()
+			}
+		}
+		return SV{T: e.get(ctx.cur, c), Sort: c.Sort, Typ: typ}, nil
+	case "countret":
+		name := e.resolveCalleeName(n.Args[0].String())
+		v, err := arg(1)
+		if err != nil {
+			return SV{}, err
+		}
+		c := e.callGhost("retcount_", n.Args[0].String())
+		if c == nil {
+			c = e.comp("retcount_"+sanitize(name), "(Array Int Int)", "ghost", "G:calls:"+name)
+		}
+		return SV{T: sel(e.get(ctx.cur, c), v.T), Sort: "Int"}, nil
+	case "countrecv":
+		v, err := arg(0)
+		if err != nil {
+			return SV{}, err
+		}
+		c := e.comp("recvcount", "(Array Int Int)", "ghost", "G:recv")
+		return SV{T: sel(e.get(ctx.cur, c), v.T), Sort: "Int"}, nil
+	case "recvs":
+		c := e.comp("recvtotal", "Int", "ghost", "G:recv")
+		return SV{T: e.get(ctx.cur, c), Sort: "Int"}, nil
+	case "bitand":
+		a, err := arg(0)
+		if err != nil {
+			return SV{}, err
+		}
+		b, err := arg(1)
+		if err != nil {
+			return SV{}, err
+		}
+		return SV{T: bitAnd(e, a.T, b.T), Sort: "Int"}, nil
 	case "fresh":
 		v, err := arg(0)
 		if err != nil {
@@ -936,6 +1009,15 @@ func (e *Enc) evalCall(n *SCall, ctx *SpecCtx) (SV, error) {
 		}
 		c2 := ctx.withState(ls)
 		return e.evalSpec(n.Args[0], c2)
+	case "peerstr":
+		v, err := arg(0)
+		if err != nil {
+			return SV{}, err
+		}
+		e.hdrOnce("peerstr", `(declare-fun peer_str (Str) Str)
+(declare-fun peer_str_inv (Str) Str)
+(assert (forall ((x Str)) (! (= (peer_str_inv (peer_str x)) x) :pattern ((peer_str x)))))`)
+		return SV{T: "(peer_str " + v.T + ")", Sort: "Str"}, nil
 	case "bytestr":
 		// bytestr(b): the string with the bytes of slice b (string(b) / peer.ID(b))
 		v, err := arg(0)
@@ -966,6 +1048,26 @@ func (e *Enc) evalCall(n *SCall, ctx *SpecCtx) (SV, error) {
 		}
 	}
 	return SV{}, fmt.Errorf("unknown spec function %s", n.Fn)
+}
+
+// callGhost finds the ghost component kind+<callee> (kind = "calls_", "lastret0_", ...). The callee
+// may be abbreviated: peer.IDFromBytes, (peer.ID).MatchesPublicKey, PubKey.Verify.
+func (e *Enc) callGhost(kind, name string) *Comp {
+	full := e.resolveCalleeName(name)
+	if c := e.comps[kind+sanitize(full)]; c != nil {
+		return c
+	}
+	want := strings.TrimLeft(sanitize(name), "_")
+	var hit *Comp
+	for _, cn := range e.compOrder {
+		if strings.HasPrefix(cn, kind) && strings.HasSuffix(cn, "_"+want) {
+			if hit != nil && hit.Name != cn {
+				return nil // ambiguous
+			}
+			hit = e.comps[cn]
+		}
+	}
+	return hit
 }
 
 func (e *Enc) resolveCalleeName(name string) string {
@@ -1333,31 +1435,43 @@ func (e *Enc) applyModifies(fc *FuncContract, env map[string]SV, callee *ssa.Fun
 	e.assumeClosed(post, hv)
 }
 
-// checkFrame generates frame obligations for the top function at its exit.
-func (e *Enc) checkFrame(fr *Frame, fc *FuncContract, entry, exit *St, reach string) {
-	env := map[string]SV{}
-	for i, p := range fr.fn.Params {
-		env[p.Name()] = SV{T: fr.params[i].T, Sort: fr.params[i].S, Typ: p.Type()}
+// frameGoals computes, per modified component, the formula "only declared locations changed"
+// between the top function's entry state and st.
+func (e *Enc) frameGoals(st *St) map[string]string {
+	fr := e.topFrame
+	fc := e.topContract
+	out := map[string]string{}
+	if fr == nil || fc == nil {
+		return out
 	}
-	ts, err := e.modTargets(fc, env, fr.fn, entry)
-	if err != nil {
-		e.errorf("contract %s: %v", fc.Name, err)
-		return
+	entry := fr.entry
+	if e.frameTargets == nil {
+		env := map[string]SV{}
+		for i, p := range fr.fn.Params {
+			env[p.Name()] = SV{T: fr.params[i].T, Sort: fr.params[i].S, Typ: p.Type()}
+		}
+		ts, err := e.modTargets(fc, env, fr.fn, entry)
+		if err != nil {
+			e.errorf("contract %s: %v", fc.Name, err)
+			return out
+		}
+		e.frameTargets = map[string][]*modTarget{}
+		for _, t := range ts {
+			e.frameTargets[t.comp.Name] = append(e.frameTargets[t.comp.Name], t)
+		}
+		e.frameTargets["$done"] = nil
 	}
-	byComp := map[string][]*modTarget{}
-	for _, t := range ts {
-		byComp[t.comp.Name] = append(byComp[t.comp.Name], t)
-	}
+	byComp := e.frameTargets
 	a0 := e.get(entry, e.allocComp())
 	for _, name := range append([]string{}, e.compOrder...) {
 		c := e.comps[name]
 		if c.Kind == "local" || c.Kind == "alloc" {
 			continue
 		}
-		if strings.HasPrefix(c.Fam, "G:calls:") || c.Fam == "G:held" || c.Fam == "G:ctxdone" {
+		if strings.HasPrefix(c.Fam, "G:calls:") || c.Fam == "G:held" || c.Fam == "G:ctxdone" || c.Fam == "G:recv" {
 			continue
 		}
-		v0, v1 := e.get(entry, c), e.get(exit, c)
+		v0, v1 := e.get(entry, c), e.get(st, c)
 		if v0 == v1 {
 			continue
 		}
@@ -1379,12 +1493,22 @@ func (e *Enc) checkFrame(fr *Frame, fc *FuncContract, entry, exit *St, reach str
 		}
 		var goal string
 		if strings.HasPrefix(c.Sort, "(Array Ref ") {
-			goal = fmt.Sprintf("(forall ((o Ref)) (=> %s (= (select %s o) (select %s o))))", and(append([]string{sel(a0, "o")}, excl...)...), v1, v0)
+			goal = fmt.Sprintf("(forall ((o Ref)) (! (=> %s (= (select %s o) (select %s o))) :pattern ((select %s o))))", and(append([]string{sel(a0, "o")}, excl...)...), v1, v0, v1)
 		} else if c.Kind == "clock" || c.Fam == "G:ctxdone" {
 			continue
 		} else {
 			goal = eq(v1, v0)
 		}
-		e.addObl("frame", c.Fam, reach, goal, fr.fn.Pos(), "only declared locations of "+c.Fam+" change")
+		out[name] = goal
+	}
+	return out
+}
+
+// checkFrame generates frame obligations for the top function at its exit.
+func (e *Enc) checkFrame(fr *Frame, fc *FuncContract, entry, exit *St, reach string) {
+	goals := e.frameGoals(exit)
+	for _, name := range sortedKeys(goals) {
+		c := e.comps[name]
+		e.addObl("frame", c.Name, reach, goals[name], fr.fn.Pos(), "only declared locations of "+c.Fam+" change")
 	}
 }
